@@ -280,7 +280,7 @@ Definition pass_of (e : iev) : oev :=
 Definition updated (e : iev) : iev :=
   mkI (i_ph e) (i_args e) (if i_bytes e then i_name e else strip_bytes (i_name e)) (i_pid e) (i_tid e)
       (i_ts e) (i_dur e) None
-      (match i_peer e with Some p => Some p | None => i_peers e end)
+      (match i_peers e with Some p => Some p | None => i_peer e end)   (* an existing "Peers" is kept: fix C20 *)
       (i_type e) (i_cg e) (i_bytes e) (i_job e) (i_uid e).
 
 (* flow_prepare_event_data: the (possibly updated) slice and, if it carries a sync tag, its helper *)
